@@ -423,6 +423,7 @@ type LoopSpec struct {
 	Decreases  Expr
 	Modifies   []Expr
 	Hints      []Hint
+	ExitHints  []Hint
 }
 
 type Clause struct {
@@ -914,6 +915,13 @@ func ParseContractFile(path string, pkgPath string) (*ContractFile, error) {
 					return nil, fail(l, err)
 				}
 				ls.Hints = append(ls.Hints, hs...)
+			case "exithint":
+				// hints applied on every edge that leaves the loop (break, return, normal exit)
+				hs, err := parseHints(f3[2])
+				if err != nil {
+					return nil, fail(l, err)
+				}
+				ls.ExitHints = append(ls.ExitHints, hs...)
 			default:
 				return nil, fail(l, fmt.Errorf("bad loop clause kind"))
 			}
